@@ -243,8 +243,11 @@ class Expand(_ModeMixin, DisjointUnionStrategy):
         order = [(c.prefix, True)] + [(c.prefix + a, False) for a in c.alphabet]
         if "last" in self.mode:
             order = order[1:] + order[:1]
-        for pre, jp in order:
-            cp, m = child_params(c, self.mode, pre, 0, jp)
+        for idx, (pre, jp) in enumerate(order):
+            # mode word `altnames`: every other child lists its statistics under the parent's names in the opposite order, so
+            # that children with equally many statistics have different parameter maps
+            mode = self.mode + " revnames" if "altnames" in self.mode and idx % 2 == 1 and "revnames" not in self.mode else self.mode
+            cp, m = child_params(c, mode, pre, 0, jp)
             res.append((PW(pre, c.patterns, c.alphabet, jp, cp), m))
         return res
 
